@@ -14,6 +14,7 @@ import (
 	"github.com/vektah/gqlparser/v2"
 	"github.com/vektah/gqlparser/v2/ast"
 	"github.com/vektah/gqlparser/v2/formatter"
+	"github.com/vektah/gqlparser/v2/parser"
 )
 
 var introspectionQueryName string = "IntrospectionQuery"
@@ -87,6 +88,12 @@ func introspectRemoteSchema(factory QueryerFactory, url string) (*ast.Schema, er
 		return nil, errors.New("could not find the root query")
 	}
 
+	// kind of every named type, needed to interpret default value literals
+	kinds := make(map[string]string, len(remoteSchema.Types))
+	for _, remoteType := range remoteSchema.Types {
+		kinds[remoteType.Name] = remoteType.Kind
+	}
+
 	for _, remoteType := range remoteSchema.Types {
 		// a type reference that does not end at a named type cannot be reconstructed
 		if err := checkTypeRefs(remoteType); err != nil {
@@ -94,7 +101,7 @@ func introspectRemoteSchema(factory QueryerFactory, url string) (*ast.Schema, er
 		}
 
 		// convert turn the API payload into a schema type
-		schemaType := parseType(remoteType)
+		schemaType := parseType(remoteType, kinds)
 		if schemaType == nil {
 			continue
 		}
@@ -201,7 +208,7 @@ func introspectRemoteSchema(factory QueryerFactory, url string) (*ast.Schema, er
 			Position:    &ast.Position{Src: &ast.Source{}},
 			Name:        directive.Name,
 			Description: directive.Description,
-			Arguments:   parseArgList(directive.Args),
+			Arguments:   parseArgList(directive.Args, kinds),
 			Locations:   locations,
 		}
 
@@ -225,7 +232,7 @@ func formatSchema(schema *ast.Schema) string {
 	return buf.String()
 }
 
-func parseType(remoteType IntrospectionQueryFullType) *ast.Definition {
+func parseType(remoteType IntrospectionQueryFullType, kinds map[string]string) *ast.Definition {
 	switch remoteType.Name {
 	// skip builtin stuff, it'll be lately added by gqlparser
 	case "ID", "Int", "Float", "String", "Boolean",
@@ -270,13 +277,13 @@ func parseType(remoteType IntrospectionQueryFullType) *ast.Definition {
 			Name:        field.Name,
 			Type:        parseTypeRef(&field.Type),
 			Description: field.Description,
-			Arguments:   parseArgList(field.Args),
+			Arguments:   parseArgList(field.Args, kinds),
 		})
 	}
 
 	for _, field := range remoteType.InputFields {
 		// add the field to the list
-		fields = append(fields, parseInputField(field))
+		fields = append(fields, parseInputField(field, kinds))
 	}
 
 	definition.Fields = fields
@@ -284,23 +291,100 @@ func parseType(remoteType IntrospectionQueryFullType) *ast.Definition {
 	return definition
 }
 
-func parseInputField(field IntrospectionInputValue) *ast.FieldDefinition {
+func parseInputField(field IntrospectionInputValue, kinds map[string]string) *ast.FieldDefinition {
 	fd := &ast.FieldDefinition{
 		Name:        field.Name,
 		Type:        parseTypeRef(&field.Type),
 		Description: field.Description,
 	}
-	if field.DefaultValue == nil {
-		return fd
+
+	fd.DefaultValue = parseDefaultValue(field.DefaultValue, fd.Type, kinds)
+
+	return fd
+}
+
+// parseDefaultValue turns the defaultValue of an introspection answer into a value.
+// The specification encodes it as a GraphQL literal inside a string ("\"abc\"", "[1, 2]", "RED");
+// some servers send the plain JSON value instead, which is what decodeRawDefaultValue handles.
+func parseDefaultValue(raw interface{}, t *ast.Type, kinds map[string]string) *ast.Value {
+	if raw == nil {
+		return nil
 	}
 
-	bRaw, err := json.Marshal(field.DefaultValue)
+	if literal, ok := raw.(string); ok {
+		if v := parseValueLiteral(literal); v != nil && isLiteralOfType(v, t, kinds) {
+			return v
+		}
+	}
+
+	return decodeRawDefaultValue(raw, t)
+}
+
+// parseValueLiteral parses a GraphQL value literal, nil if it is not exactly one
+func parseValueLiteral(literal string) *ast.Value {
+	doc, err := parser.ParseSchema(&ast.Source{Input: "input I { f: I = " + literal + " }"})
+	if err != nil || len(doc.Definitions) != 1 || len(doc.Definitions[0].Fields) != 1 {
+		return nil
+	}
+	return doc.Definitions[0].Fields[0].DefaultValue
+}
+
+// isLiteralOfType reports whether the literal can be a value of the type
+func isLiteralOfType(v *ast.Value, t *ast.Type, kinds map[string]string) bool {
+	if v.Kind == ast.Variable {
+		return false
+	}
+
+	if v.Kind == ast.NullValue {
+		return !t.NonNull
+	}
+
+	if t.Elem != nil {
+		if v.Kind != ast.ListValue {
+			// a single value is coerced to a list of one
+			return isLiteralOfType(v, t.Elem, kinds)
+		}
+		for _, child := range v.Children {
+			if !isLiteralOfType(child.Value, t.Elem, kinds) {
+				return false
+			}
+		}
+		return true
+	}
+
+	switch t.Name() {
+	case "Int":
+		return v.Kind == ast.IntValue
+	case "Float":
+		return v.Kind == ast.IntValue || v.Kind == ast.FloatValue
+	case "String":
+		return v.Kind == ast.StringValue || v.Kind == ast.BlockValue
+	case "Boolean":
+		return v.Kind == ast.BooleanValue
+	case "ID":
+		return v.Kind == ast.StringValue || v.Kind == ast.IntValue
+	}
+
+	switch kinds[t.Name()] {
+	case "ENUM":
+		return v.Kind == ast.EnumValue
+	case "INPUT_OBJECT":
+		return v.Kind == ast.ObjectValue
+	default:
+		// custom scalar: a bare word is taken as a plain string value
+		return v.Kind != ast.EnumValue
+	}
+}
+
+// decodeRawDefaultValue handles default values sent as plain JSON values
+func decodeRawDefaultValue(raw interface{}, t *ast.Type) *ast.Value {
+	bRaw, err := json.Marshal(raw)
 	if err != nil {
-		return fd
+		return nil
 	}
 
-	isArray := fd.Type.Elem != nil
-	kindStr := fd.Type.Name()
+	isArray := t.Elem != nil
+	kindStr := t.Name()
 
 	var vKind ast.ValueKind
 
@@ -316,9 +400,9 @@ func parseInputField(field IntrospectionInputValue) *ast.FieldDefinition {
 	}
 
 	if isArray {
-		arr, ok := field.DefaultValue.([]interface{})
+		arr, ok := raw.([]interface{})
 		if !ok {
-			return fd
+			return nil
 		}
 
 		var children ast.ChildValueList
@@ -326,7 +410,7 @@ func parseInputField(field IntrospectionInputValue) *ast.FieldDefinition {
 		for _, el := range arr {
 			elRaw, err := json.Marshal(el)
 			if err != nil {
-				return fd
+				return nil
 			}
 			if vKind == ast.StringValue && len(elRaw) > 2 {
 				// stash additional "" after json marshalling
@@ -342,12 +426,11 @@ func parseInputField(field IntrospectionInputValue) *ast.FieldDefinition {
 			})
 		}
 
-		fd.DefaultValue = &ast.Value{
+		return &ast.Value{
 			Position: &ast.Position{},
 			Kind:     ast.ListValue,
 			Children: children,
 		}
-		return fd
 	}
 
 	if vKind == ast.StringValue && len(bRaw) > 2 {
@@ -355,24 +438,24 @@ func parseInputField(field IntrospectionInputValue) *ast.FieldDefinition {
 		bRaw = bRaw[1 : len(bRaw)-1]
 	}
 
-	fd.DefaultValue = &ast.Value{
+	return &ast.Value{
 		Position: &ast.Position{},
 		Raw:      string(bRaw),
 		Kind:     vKind,
 	}
-
-	return fd
 }
 
-func parseArgList(args []IntrospectionInputValue) ast.ArgumentDefinitionList {
+func parseArgList(args []IntrospectionInputValue, kinds map[string]string) ast.ArgumentDefinitionList {
 	result := ast.ArgumentDefinitionList{}
 
 	// we need to add each argument to the field
 	for _, argument := range args {
+		argType := parseTypeRef(&argument.Type)
 		result = append(result, &ast.ArgumentDefinition{
-			Name:        argument.Name,
-			Description: argument.Description,
-			Type:        parseTypeRef(&argument.Type),
+			Name:         argument.Name,
+			Description:  argument.Description,
+			Type:         argType,
+			DefaultValue: parseDefaultValue(argument.DefaultValue, argType, kinds),
 		})
 	}
 
